@@ -225,6 +225,11 @@ def cases():
     add("TRIM(x, chars) keeps the trim characters", "trim_cast_varchar",
         mk(lambda o: node("Trim", "stmt", this=op(o, "x"), expression=op(o, "chars"))),
         lambda o, i: P("Trim", this=P("Cast", this=IS(o["x"])), expression=IS(o["chars"])), "TRIM(x, chars) removes the given characters, not whitespace")
+    for ty in ("BIGINT", "DATE", "DECIMAL"):
+        add(f"TRIM(CAST(x AS {ty})) still gets its implicit VARCHAR cast", "trim_cast_varchar",
+            mk(lambda o, ty=ty: node("Trim", "stmt", this=op(o, "c", node("Cast", this=S("x"), to=dtype(ty))))),
+            lambda o, i: P("Trim", this=P("Cast", this=IS(o["c"]), to=P("DataType", this=ENUM("VARCHAR")))),
+            "Snowflake's TRIM takes any type and trims its text; DuckDB's takes text only: a cast to a non-text type is not the text cast")
     # --- statement-level rewrites without a dedicated trace rule
     def is_nop(v, path):
         ok = isinstance(v, NodeV) and (getattr(v, "shared", False) or getattr(getattr(v, "copy_of", None), "shared", False)) and "SUCCESS_NOP" in v.name
